@@ -137,6 +137,16 @@ def search_unit(prop, unit, work, seed, only_fn=None):
     return None
 
 
+def sweep_unit(unit, work, seed):
+    """Standing bounded cross-check (every run): the unit's replay driver sweeps its exhaustive-small and
+    seeded random inputs over the ORIGINAL text.  Returns dict(evaluated, fails, note)."""
+    exe, info = build_driver(unit, work)
+    if exe is None:
+        return {"unit": unit, "evaluated": 0, "fails": [], "note": info[:300], "built": False}
+    fails, evaluated, err = run_driver(exe, "search", "*", seed)
+    return {"unit": unit, "evaluated": evaluated, "fails": fails, "note": "", "built": True, "build": info}
+
+
 def write_replay_file(replay_dir, prop, unit, oid, wit, verifier_output, seed, extra=None):
     h = hashlib.sha256((prop + unit + oid + str(wit)).encode()).hexdigest()[:10]
     path = os.path.join(replay_dir, "%s_%s_%s.json" % (prop, unit.replace(":", "_"), h))
@@ -161,6 +171,9 @@ def build_replay(prop, unit, oid, recs, res, work, seed, replay_dir, all_obligat
         extra["kani"] = {kk: k.get(kk) for kk in ("harness", "failed_check", "concrete_values", "bounded", "cmd")}
         if k.get("concrete_values"):
             wit = {"fn": k.get("function"), "input": k.get("concrete_values"), "observed": k.get("failed_check"), "expected": "contract holds"}
+    elif recs and recs[0].get("sweep_witness"):
+        w = recs[0]["sweep_witness"]
+        wit = {"fn": w.get("fn"), "input": w.get("input"), "observed": w.get("observed"), "expected": w.get("expected"), "clause": w.get("clause")}
     else:
         f = fn_of_obligation(oid)
         exe, info = build_driver(unit, work)
